@@ -98,15 +98,20 @@ package round
 //@   modifies hstate(h.hash), wlog(h.hash.h)
 //@   ensures !held(h.mtx)
 
+// (C07, C04, C05) a message is sent for a round the session announced: peers refuse anything numbered beyond the final
+// round (CanAccept), so a message for a later round would be dropped by everybody and the round never complete
+// (content round numbers are read from the code of each RoundNumber() method)
 //@ func (*Helper).BroadcastMessage
 //@   nopanic[C05]
 //@   requires h != nil && out != nil && broadcastContent != nil && !closed(out)
+//@   requires broadcastContent.RoundNumber() <= h.info.FinalRoundNumber && broadcastContent.RoundNumber() >= 1
 //@   modifies nothing
 //@   allocates
 
 //@ func (*Helper).SendMessage
 //@   nopanic[C05]
 //@   requires h != nil && out != nil && content != nil && !closed(out)
+//@   requires content.RoundNumber() <= h.info.FinalRoundNumber && content.RoundNumber() >= 1
 //@   modifies nothing
 //@   allocates
 
